@@ -112,7 +112,7 @@ def path_witness(f, start_block, closer_blocks, limit=12):
     return out[-limit:]
 
 
-def escapes_some_sensitive(fx, f, start_block, closer_blocks):
+def escapes_some_sensitive(fx, f, start_block, closer_blocks, assume=()):
     """like `escapes`, but path sensitive for Option locals known to be `Some` along the path
     (`let (saved, m) = if c { install; (Some(a), Some(b)) } else { (None, None) }` followed by
     `if let Some(s) = saved { restore }`): the None arm of a match on a known-Some local is not taken"""
@@ -152,7 +152,7 @@ def escapes_some_sensitive(fx, f, start_block, closer_blocks):
 
     seen = set()
     # facts established inside the start block itself (the install and the tuple are often one block)
-    k0 = transfer(start_block, frozenset())
+    k0 = frozenset(transfer(start_block, frozenset()) | set(assume))
     work = [(s, k0) for s in f.succ(start_block)]
     while work:
         b, known = work.pop()
